@@ -18,7 +18,7 @@ const builtinPrelude = `
 (declare-fun int.or (Int Int) Int)
 (declare-fun int.and (Int Int) Int)
 (declare-fun i2w32 (Int) (_ BitVec 32))
-(define-fun w2i32 ((x (_ BitVec 32))) Int (bv2nat x))
+(declare-fun w2i32 ((_ BitVec 32)) Int)
 (declare-fun i2w64 (Int) (_ BitVec 64))
 (declare-fun w2i64 ((_ BitVec 64)) Int)
 (assert (forall ((x Int)) (! (= (int.or x 0) x) :pattern ((int.or x 0)))))
